@@ -160,6 +160,16 @@ func (t *Target) serve(c *Conn, step *ProbeStep) {
 			return
 		}
 		// client request
+		if e := req.Header.Get("X-Verif-Early"); e != "" {
+			// answer after reading only the first k bytes of the body, then close the connection
+			k, _ := strconv.Atoi(e)
+			part := make([]byte, k)
+			got, _ := io.ReadFull(req.Body, part)
+			n.log(Event{Kind: "req", Target: t.Name, Conn: c.ID, Method: req.Method, URI: req.RequestURI, Host: req.Host, Header: req.Header, Body: part[:got], FirstByteAt: first, ReqID: req.Header.Get("X-Request-Id"), Note: "early-answer"})
+			c.Write([]byte("HTTP/1.1 200 OK\r\nContent-Length: 5\r\nConnection: close\r\nX-Target: " + t.Name + "\r\n\r\nearly"))
+			n.log(Event{Kind: "resp", Target: t.Name, Conn: c.ID, Status: 200, ReqID: req.Header.Get("X-Request-Id")})
+			return
+		}
 		var body []byte
 		var bodyErr error
 		if req.Header.Get("Upgrade") == "" {
